@@ -15,11 +15,18 @@ import (
 // their registrations and the completion of their tasks. Anyone may let those take effect in any
 // transaction (C04/C05/C08 judge them); what is left is the transaction's own effect.
 func OwnEffect(d []core.Change) (own []core.Change) {
+	own, _ = SplitEffect(d)
+	return
+}
+
+// SplitEffect is OwnEffect that also returns the ids of the promises that timed out spontaneously.
+func SplitEffect(d []core.Change) (own []core.Change, spont []string) {
 	timedOut := map[string]bool{}
 	for _, c := range d {
 		if c.Table == "promises" && c.Before != nil && c.After != nil && c.Before.I("state") == pPending && c.After.I("state") != pPending &&
 			c.After.I("completed_on") == c.After.I("timeout") && c.After.Null("idempotency_key_for_complete") {
 			timedOut[c.Key] = true
+			spont = append(spont, c.Key)
 		}
 	}
 	delCb := map[string]bool{}
@@ -57,6 +64,12 @@ func (q *SeqRunner) Close() { q.s.Close() }
 
 // Run returns the normalised response and own effect of req executed alone on snapshot sn at clock tau.
 func (q *SeqRunner) Run(sn core.Snapshot, req *t_api.Request, tau int64) (res string, effect string) {
+	res, effect, _ = q.RunSpont(sn, req, tau)
+	return
+}
+
+// RunSpont is Run that also reports which promises the sequential run let time out.
+func (q *SeqRunner) RunSpont(sn core.Snapshot, req *t_api.Request, tau int64) (res string, effect string, spont []string) {
 	s := q.s
 	s.Reqs, s.Ticks = nil, nil
 	core.Load(s.obs, sn)
@@ -67,10 +80,11 @@ func (q *SeqRunner) Run(sn core.Snapshot, req *t_api.Request, tau int64) (res st
 		s.Tick()
 	}
 	if !rr.Done {
-		return "NOT-DONE", ""
+		return "NOT-DONE", "", nil
 	}
 	post := core.Snap(s.obs)
-	return NormRes(rr.Res, rr.Err), core.NormChanges(OwnEffect(core.Diff(pre, post)))
+	own, sp := SplitEffect(core.Diff(pre, post))
+	return NormRes(rr.Res, rr.Err), core.NormChanges(own), sp
 }
 
 var numRe = regexp.MustCompile(`-?\d{10,}`)
